@@ -1,7 +1,7 @@
 #!/bin/bash
 # usage: tools/seed_finish.sh <worktree> <PID>  -- confirm every <worktree>/_seeded/<PID>_* against the full test-suite, copy to /verif/seeded, record detection, remove the worktree
 WT=$1; PID=$2
-/verif/tools/seed_confirm.sh $WT $PID > /dev/null 2>&1
+[ -n "$SKIP_CONFIRM" ] || /verif/tools/seed_confirm.sh $WT $PID > /dev/null 2>&1
 for D in $WT/_seeded/${PID}_*; do
   if grep -q "pytest_exit=1" $D/confirm.txt; then
     # a flaky unseeded test may have stopped the -x run: re-run the whole suite once without -x
